@@ -1,10 +1,10 @@
 //! Independent x86-64 interpreter for the handful of instructions a patch may consist of.
 //! Written from the Intel SDM encodings; shares no code with injectorpp.
-//!   E9 rel32            jmp rel32
-//!   48 B8 imm64         mov rax, imm64
-//!   FF E0               jmp rax
-//!   48 C7 C0 imm32      mov rax, sign-extended imm32
-//!   C3                  ret
+//!   E9 rel32                      jmp rel32
+//!   REX.W(B) B8+r imm64           mov r64, imm64        (any register)
+//!   [41] FF E0+r                  jmp r64               (any register)
+//!   REX.W(B) C7 C0+r imm32        mov r64, sign-extended imm32
+//!   C3                            ret
 //! Anything else stops the interpreter with `bad = true`.
 use libc::sim;
 
@@ -106,7 +106,7 @@ fn le64(b: &[u8; sim::RLEN], o: usize) -> u64 {
 fn any_dirty(d: &[bool; sim::RLEN], n: usize) -> bool {
     let mut r = false;
     let mut k = 0;
-    while k < 12 {
+    while k < 16 {
         if k < n && d[k] {
             r = true;
         }
@@ -115,54 +115,75 @@ fn any_dirty(d: &[bool; sim::RLEN], n: usize) -> bool {
     r
 }
 
-/// Execute the instructions at the start of region `r` until control is transferred.
-/// Instruction boundaries are concrete: a block is one of
-///   E9 rel32 | 48 B8 imm64 ; FF E0 | 48 B8 imm64 ; C3 | 48 C7 C0 imm32 ; C3 | 48 C7 C0 imm32 ; FF E0 | FF E0 | C3
-fn exec_block(cpu: &mut Cpu, base: u64, b: &[u8; sim::RLEN], d: &[bool; sim::RLEN]) -> bool {
-    let used;
-    if b[0] == 0xE9 {
-        let rel = le32(b, 1) as i32 as i64 as u64;
-        cpu.pc = base.wrapping_add(5).wrapping_add(rel);
-        used = 5;
-    } else if b[0] == 0xFF && b[1] == 0xE0 {
-        cpu.pc = cpu.regs[0];
-        used = 2;
-    } else if b[0] == 0xC3 {
+/// decode one instruction at the CONCRETE offset `o` of block `b`.
+/// returns (length, transferred); length 0 = undecodable
+fn exec_insn(cpu: &mut Cpu, base: u64, b: &[u8; sim::RLEN], o: usize) -> (usize, bool) {
+    let op = b[o];
+    // optional REX prefix 0x48 (W) / 0x49 (W+B) / 0x41 (B)
+    if op == 0xE9 {
+        let rel = le32(b, o + 1) as i32 as i64 as u64;
+        cpu.pc = base.wrapping_add(o as u64).wrapping_add(5).wrapping_add(rel);
+        return (5, true);
+    }
+    if op == 0xC3 {
         cpu.pc = cpu.ret_addr;
         cpu.rsp = cpu.rsp.wrapping_add(8);
         cpu.returned = true;
-        used = 1;
-    } else if b[0] == 0x48 && b[1] == 0xB8 {
-        cpu.regs[0] = le64(b, 2);
-        if b[10] == 0xFF && b[11] == 0xE0 {
-            cpu.pc = cpu.regs[0];
-            used = 12;
-        } else if b[10] == 0xC3 {
-            cpu.pc = cpu.ret_addr;
-            cpu.rsp = cpu.rsp.wrapping_add(8);
-            cpu.returned = true;
-            used = 11;
+        return (1, true);
+    }
+    if op == 0xFF && b[o + 1] & 0xF8 == 0xE0 {
+        // jmp r64 (rax..rdi)
+        let r = (b[o + 1] & 7) as usize;
+        cpu.pc = if r == 4 { cpu.rsp } else { cpu.regs[r] };
+        return (2, true);
+    }
+    if op == 0x41 && b[o + 1] == 0xFF && b[o + 2] & 0xF8 == 0xE0 {
+        // jmp r8..r15
+        cpu.pc = cpu.regs[8 + (b[o + 2] & 7) as usize];
+        return (3, true);
+    }
+    if (op == 0x48 || op == 0x49) && b[o + 1] & 0xF8 == 0xB8 {
+        // mov r64, imm64
+        let r = (b[o + 1] & 7) as usize + if op == 0x49 { 8 } else { 0 };
+        let v = le64(b, o + 2);
+        if r == 4 {
+            cpu.rsp = v;
         } else {
-            cpu.bad = true;
-            return false;
+            cpu.regs[r] = v;
         }
-    } else if b[0] == 0x48 && b[1] == 0xC7 && b[2] == 0xC0 {
-        cpu.regs[0] = le32(b, 3) as i32 as i64 as u64;
-        if b[7] == 0xC3 {
-            cpu.pc = cpu.ret_addr;
-            cpu.rsp = cpu.rsp.wrapping_add(8);
-            cpu.returned = true;
-            used = 8;
-        } else if b[7] == 0xFF && b[8] == 0xE0 {
-            cpu.pc = cpu.regs[0];
-            used = 9;
+        return (10, false);
+    }
+    if (op == 0x48 || op == 0x49) && b[o + 1] == 0xC7 && b[o + 2] & 0xF8 == 0xC0 {
+        // mov r64, sign-extended imm32
+        let r = (b[o + 2] & 7) as usize + if op == 0x49 { 8 } else { 0 };
+        let v = le32(b, o + 3) as i32 as i64 as u64;
+        if r == 4 {
+            cpu.rsp = v;
         } else {
-            cpu.bad = true;
-            return false;
+            cpu.regs[r] = v;
         }
-    } else {
+        return (7, false);
+    }
+    (0, false)
+}
+
+/// Execute the instructions at the start of a block until control is transferred.
+/// A block is at most two instructions (a move followed by a transfer, or a transfer alone);
+/// the second instruction starts at offset 7 or 10, so every offset is concrete.
+fn exec_block(cpu: &mut Cpu, base: u64, b: &[u8; sim::RLEN], d: &[bool; sim::RLEN]) -> bool {
+    let (l1, t1) = exec_insn(cpu, base, b, 0);
+    if l1 == 0 {
         cpu.bad = true;
         return false;
+    }
+    let mut used = l1;
+    if !t1 {
+        let (l2, t2) = if l1 == 10 { exec_insn(cpu, base, b, 10) } else { exec_insn(cpu, base, b, 7) };
+        if l2 == 0 || !t2 {
+            cpu.bad = true;
+            return false;
+        }
+        used = l1 + l2;
     }
     if any_dirty(d, used) {
         cpu.fetched_dirty = true;
@@ -205,12 +226,14 @@ pub fn run_one_block(cpu: &mut Cpu) {
     exec_block(cpu, pc, &f.bytes, &f.dirty);
 }
 
-/// all registers except rax (index 0) equal, stack pointer equal, no memory written
+/// Every register except the non-argument caller-saved temporaries (rax, r10, r11) is equal,
+/// the stack pointer is equal and no memory was written.  rcx/rdx/rsi/rdi/r8/r9 carry arguments,
+/// rbx/rbp/r12-r15 are callee-saved.
 pub fn transparent_except_rax(a: &Cpu, b: &Cpu) -> bool {
     let mut ok = a.rsp == b.rsp && !b.wrote_mem;
     let mut i = 1;
     while i < 16 {
-        if a.regs[i] != b.regs[i] {
+        if i != 10 && i != 11 && a.regs[i] != b.regs[i] {
             ok = false;
         }
         i += 1;
